@@ -122,8 +122,8 @@ signed areas do not cancel — closed or unclosed spelling, any start vertex —
 returns (without fault, finite) the signed-area-weighted mean of the ring centroids. -/
 theorem C03_centroid (p : Poly) (h : ∀ r ∈ p, shoelace2 r ≠ 0)
     (hW : (p.map fun r => shoelace2 r / 2).sum ≠ 0) :
-    polygonCentroid p = .ok (.fin (centroidSigned p).x, .fin (centroidSigned p).y) := by
-  unfold polygonCentroid
+    polygonCentroidCore p = .ok (.fin (centroidSigned p).x, .fin (centroidSigned p).y) := by
+  unfold polygonCentroidCore
   rw [polygonCentroidAcc_ok p h, wmean_signed p h]
   simp only [Functor.map, Except.map, CAcc.zero, CAcc.finish, zero_add, fdiv, if_neg hW]
   simp
@@ -239,7 +239,7 @@ theorem op_agrees_area (p : Poly) : opPolygonArea p = |(p.map fun r => shoelace2
 /-- **op.Centroid = Polygon.Centroid on closed rings** (the statement's "Centroid of closed rings"):
 when no ring needs the closing vertex appended, the two loops compute the same thing, fault-free. -/
 theorem op_agrees_centroid (p : Poly) (hc : ∀ r ∈ p, closeIfOpen r = .ok r) :
-    polygonCentroid p = .ok (opCentroid p) := by
+    polygonCentroidCore p = .ok (opCentroidCore p) := by
   have key : ∀ (q : Poly) (s : CAcc), (∀ r ∈ q, closeIfOpen r = .ok r) →
       polygonCentroidAcc q s = .ok (opCentroidAcc q s) := by
     intro q
@@ -252,14 +252,14 @@ theorem op_agrees_centroid (p : Poly) (hc : ∀ r ∈ p, closeIfOpen r = .ok r) 
       simp only [bind, Except.bind]
       rw [signedArea_eq_op]
       exact ih _ (fun g hg => h g (by simp [hg]))
-  unfold polygonCentroid opCentroid
+  unfold polygonCentroidCore opCentroidCore
   rw [key p _ hc]; rfl
 
 /-- On an unclosed ring `op.Centroid` drops the closing term (outside the statement, which speaks of
 closed rings): witness, the unclosed square (1,1)-(3,3). -/
 theorem op_centroid_unclosed_differs :
-    polygonCentroid [[⟨1,1⟩, ⟨3,1⟩, ⟨3,3⟩, ⟨1,3⟩]] = .ok (.fin 2, .fin 2) ∧
-    opCentroid [[⟨1,1⟩, ⟨3,1⟩, ⟨3,3⟩, ⟨1,3⟩]] ≠ (.fin 2, .fin 2) := by decide +kernel
+    polygonCentroidCore [[⟨1,1⟩, ⟨3,1⟩, ⟨3,3⟩, ⟨1,3⟩]] = .ok (.fin 2, .fin 2) ∧
+    opCentroidCore [[⟨1,1⟩, ⟨3,1⟩, ⟨3,3⟩, ⟨1,3⟩]] ≠ (.fin 2, .fin 2) := by decide +kernel
 
 /-! ## MultiPolygon.Centroid: the defect that was fixed, on the model -/
 
@@ -267,7 +267,7 @@ theorem op_centroid_unclosed_differs :
 (−1,−1) for the closed clockwise 2×2 square; the fixed code returns (1,1). -/
 theorem C03_mcentroid_unfixed_wrong :
     multiPolygonCentroidOld [[[⟨0,0⟩, ⟨0,2⟩, ⟨2,2⟩, ⟨2,0⟩, ⟨0,0⟩]]] = (.fin (-1), .fin (-1)) ∧
-    multiPolygonCentroid [[[⟨0,0⟩, ⟨0,2⟩, ⟨2,2⟩, ⟨2,0⟩, ⟨0,0⟩]]] = (.fin 1, .fin 1) := by decide +kernel
+    multiPolygonCentroidCore [[[⟨0,0⟩, ⟨0,2⟩, ⟨2,2⟩, ⟨2,0⟩, ⟨0,0⟩]]] = (.fin 1, .fin 1) := by decide +kernel
 
 
 /-- **Centroid clause (MultiPolygon), per ring.**  In the fixed `MultiPolygon.Centroid` loop, a
@@ -324,7 +324,7 @@ theorem C03_mcentroid (mp : MPoly) (sss : List (List Spell))
     (hclosed : ∀ ss ∈ sss, ∀ s ∈ ss, s.closed = true)
     (hv : ∀ p ∈ mp, ValidPoly p = true)
     (hW : ((mp.flatMap weights).map (·.1)).sum ≠ 0) :
-    multiPolygonCentroid (List.zipWith respell sss mp) = (.fin (mcentroid mp).x, .fin (mcentroid mp).y) := by
+    multiPolygonCentroidCore (List.zipWith respell sss mp) = (.fin (mcentroid mp).x, .fin (mcentroid mp).y) := by
   have hmem : ∀ p' ∈ List.zipWith respell sss mp, ∀ s,
       mpCentroidRings (p'.length == 1) (withOthers [] p') s = (weights p').foldl addW s := by
     clear hW
@@ -339,7 +339,7 @@ theorem C03_mcentroid (mp : MPoly) (sss : List (List Spell))
           (pipAgrees_respell ss (hv p (by simp)))
       · exact ih (fun q hq => hclosed q (by simp [hq])) (fun q hq => hv q (by simp [hq])) p' hp'
   have hrel := flatMap_weights_respell mp sss hlen
-  unfold multiPolygonCentroid
+  unfold multiPolygonCentroidCore
   rw [mpCentroidAcc_fold _ hmem, foldl_addW]
   have hW' : (((List.zipWith respell sss mp).flatMap weights).map (·.1)).sum ≠ 0 := by
     rw [sumW_congr hrel]; exact hW
@@ -368,7 +368,7 @@ theorem C03_centroid_valid (p : Poly) (ss : List Spell) (hlen : ss.length = p.le
     (b : Bool) (hb : ∀ s ∈ ss, s.rev = b)
     (hv : ValidPoly p = true) (halt : Alternating p = true)
     (hW : (p.map fun r => shoelace2 r / 2).sum ≠ 0) :
-    polygonCentroid (respell ss p) = .ok (.fin (Spec.centroid p).x, .fin (Spec.centroid p).y) := by
+    polygonCentroidCore (respell ss p) = .ok (.fin (Spec.centroid p).x, .fin (Spec.centroid p).y) := by
   have h : ∀ r ∈ p, shoelace2 r ≠ 0 := by
     intro r hr
     cases p with
